@@ -121,7 +121,7 @@ def _worker(part):
         v = job.judge(ex, p, inputs)
         res['solver_s'] += time.time() - tj
         res['judged_sat' if v is not None else 'judged_unsat'] = res.get('judged_sat' if v is not None else 'judged_unsat', 0) + 1
-        if v is not None and len(res['violations']) < 20:
+        if v is not None and len(res['violations']) < 400:
             res['violations'].append(v)
         if len(res['samples']) < 2:
             res['samples'].append({'end': kind, 'path_condition_size': len(p.pc), 'example_input': example_input(ex, p, inputs)})
